@@ -40,6 +40,9 @@ pub struct Plan {
     pub assumptions: Vec<String>,
     /// extra long histories: (count, ops)
     pub long: (usize, usize),
+    /// also run a SQLite/HTTP subject that is configured with an allow-list holding the history's
+    /// clients and is re-created (storage object and web server) at 40% of the gaps
+    pub allowlisted_variant: bool,
 }
 
 #[derive(Clone, Copy, Debug, PartialEq, Eq)]
@@ -260,8 +263,13 @@ struct Shared {
 
 fn run_case(plan: &Plan, h: &History, case: usize, origin: &str, sh: &Shared) {
     let mut outs: Vec<(Kind, RunOut)> = vec![];
-    for kind in &plan.kinds {
-        let mut subj = match Subject::new(*kind, plan.config) {
+    let mut subjects: Vec<(Kind, Option<std::collections::HashSet<Uuid>>)> = plan.kinds.iter().map(|k| (*k, None)).collect();
+    if plan.allowlisted_variant {
+        let ids: std::collections::HashSet<Uuid> = (0..h.n_clients).map(|c| crate::e1::client_uuid(h.seed, c)).chain([Rng::new(h.seed).fork(0xA110).uuid()]).collect();
+        subjects.push((Kind { backend: Backend::Sqlite, entry: Entry::Http, reopen_pct: 40 }, Some(ids)));
+    }
+    for (kind, allow) in &subjects {
+        let mut subj = match Subject::with(*kind, plan.config, allow.clone(), None) {
             Ok(s) => s,
             Err(e) => {
                 sh.errors.lock().unwrap().push(format!("cannot create subject {}: {e:#}", kind.name()));
@@ -533,6 +541,7 @@ pub fn plan_for(id: &str, tier: &str) -> Option<Plan> {
         rule: "",
         assumptions: base_assumptions,
         long: (0, 0),
+        allowlisted_variant: false,
     };
     match id {
         "C01" => {
@@ -540,7 +549,7 @@ pub fn plan_for(id: &str, tier: &str) -> Option<Plan> {
             p.mon.chain = true;
             p.long = (n(2, 40), n(600, 2000));
             p.required = vec!["AddVersion|", "base=id", "arg=foreign|conflict", "arg=base", "|accepted"];
-            p.rule = "random adversarial multi-client histories (nil/latest/stale/base/fresh/foreign ids, nil and non-nil first parent, reopen) on 5 subjects; after every operation every client's chain is walked from its base through the same entry point and, for SQLite, all rows are scanned for forks/orphans. A situation = (operation, client state class, argument class, outcome); distinct_nontrivial counts distinct situations observed.";
+            p.rule = "random adversarial multi-client histories (nil/latest/stale/base/fresh/foreign ids, nil and non-nil first parent, reopen) on 5 subjects; after every operation every client's chain is walked from its base through the same entry point and, for SQLite, all rows are scanned for forks/orphans. A situation = (operation, client state class, argument class, outcome); distinct_nontrivial counts distinct situations observed. Concurrent part: the E2 scenarios in which only AddVersion requests overlap (pairs, triples, two-request programs; never-seen, empty and existing clients; all backends; both entries) under the controlled scheduler with the differential oracle (final state includes every known id that exists as a version and the child index, so a fork or an orphan cannot match any one-at-a-time order).";
         }
         "C02" => {
             p.property = "C02";
@@ -555,8 +564,9 @@ pub fn plan_for(id: &str, tier: &str) -> Option<Plan> {
         "C07" => {
             p.property = "C07";
             p.mon.immut = true;
-            p.n_random = n(200, 5000);
-            p.long = (n(2, 24), n(500, 2000));
+            p.allowlisted_variant = true;
+            p.n_random = n(140, 5000);
+            p.long = (n(1, 24), n(400, 2000));
             p.required = vec!["AddSnapshot|", "|conflict", "|accepted"];
             p.rule = "every accepted (version, parent, payload) is re-read through GetChildVersion after later operations (a random third after every operation, all of them every 10 operations, after every reopen and at the end), across snapshots, rejected requests, other clients' activity and reopen. distinct_nontrivial = distinct situations that occurred while accepted versions were being re-read. Concurrent part: uncontrolled stress (6-12 threads on one storage / one SQLite object per thread / sockets) after which every version whose acceptance was acknowledged must still be served with its parent and payload.";
         }
@@ -568,7 +578,7 @@ pub fn plan_for(id: &str, tier: &str) -> Option<Plan> {
             p.profile.w_kind = [30, 10, 12, 3, 45];
             p.profile.valid_add_pct = 35;
             p.required = vec!["probe|", "gcv=not-found|add=accepted", "gcv=gone|add=conflict", "gcv=found", "probe:never-seen-client", "base=id"];
-            p.rule = "paired probes GetChildVersion(p) immediately followed by AddVersion(p) on the same state: exhaustive small scope (chain length x base x snapshot x every class of p) plus random histories with 45% probes. distinct_nontrivial = distinct (state class, argument class, GetChildVersion outcome, AddVersion outcome) situations.";
+            p.rule = "paired probes GetChildVersion(p) immediately followed by AddVersion(p) on the same state: exhaustive small scope (chain length x base x snapshot x every class of p) plus random histories with 45% probes. distinct_nontrivial = distinct (state class, argument class, GetChildVersion outcome, AddVersion outcome) situations. Concurrent part: the E2 scenarios in which a GetChildVersion(p) overlaps an AddVersion(p) (all backends, both entries, all client states) under the controlled scheduler: the read must answer what some one-at-a-time order gives.";
         }
         "C09" => {
             p.property = "C09";
@@ -604,6 +614,7 @@ pub fn plan_for(id: &str, tier: &str) -> Option<Plan> {
         "C13" => {
             p.property = "C13";
             p.compare = Compare::Backends;
+            p.allowlisted_variant = true;
             p.kinds = vec![
                 Kind::MEM_LIB,
                 Kind::SQL_LIB,
